@@ -33,12 +33,15 @@ SPEC_G = Lin({"self._iteration": 1, "self._last_schedule_update": -1, "self.max_
 
 def atom_recompute(e):
     """-> (name, polarity) for atoms R, N (max_recompute is not None), L (last is None), G (iter - last >= max)"""
+    while isinstance(e, ast.Call) and call_name(e) == "bool" and len(e.args) == 1:
+        e = e.args[0]
     d = dotted(e)
     if d is not None:
         if canon(d) == "self._resolve":
             return "R", True
-        if canon(d) == "self.max_recompute":
-            return "N", True        # truthiness of max_recompute used as the not-None test: recognised and *wrong* for 0 -> handled by caller
+        if canon(d) in ("self.max_recompute", "self._last_schedule_update"):
+            raise WrongAtom(f"`{src(e)}` is tested by truthiness: the value 0 (period 0 / a recompute interval of 0) is treated like None, so a "
+                            f"scheduler that last ran in period 0 counts as never having run")
         raise AnalysisError(f"recompute condition: unknown atom {src(e)}")
     if isinstance(e, ast.Compare) and len(e.ops) == 1:
         l, op, r = e.left, e.ops[0], e.comparators[0]
@@ -314,27 +317,27 @@ def rule_binding(ck):
     fl = flow_of(f)
     si = repo.cls("SessionInfo")
     init = repo.method(si, "__init__")
-    calls = [(n, c) for n, c in calls_in(fl, "SessionInfo")]
-    ck.require(len(calls) == 1, "C05.R5", f, calls[0][1] if calls else "SessionInfo(...)", bad=f"{len(calls)} SessionInfo constructions", sink="session:count")
-    for n, c in calls:
+    rets = [n for n in fl.cfg.nodes if n.kind == "return"]
+    ck.require(len(rets) == 1, "C05.R5", f, "single return", bad=f"{len(rets)} returns in _active_sessions", sink="session:returns")
+    for r in rets:
+        ex = fl.expand(r.expr, r)          # a loop with append is normalised to the equivalent comprehension
+        if not (isinstance(ex, ast.ListComp) and len(ex.generators) == 1 and isinstance(ex.elt, ast.Call) and call_name(ex.elt) == "SessionInfo"):
+            raise AnalysisError(f"_active_sessions: construction of the session list not recognised: {src(ex, 80)}")
+        g = ex.generators[0]
+        c = ex.elt
+        itv = g.target.id if isinstance(g.target, ast.Name) else None
+        src_it = canon(g.iter)
+        ck.require(src_it in ("self._active_evs", "self._simulator.get_active_evs()") and not g.ifs, "C05.R5", f, g.iter,
+                   ok="one SessionInfo per active EV, unfiltered", bad=f"sessions are built from {src_it}{' with a filter' if g.ifs else ''}, not from all active EVs",
+                   sink="session:source")
         b = bind_args(c, init, method=True)
-        # the comprehension variable iterates the active EVs
-        comp = [x for x in ast.walk(n.expr if n.expr is not None else n.stmt) if isinstance(x, (ast.ListComp, ast.GeneratorExp))]
-        itv = None
-        if comp:
-            g = comp[0].generators[0]
-            itv = g.target.id if isinstance(g.target, ast.Name) else None
-            src_it = canon(fl.expand(g.iter, n))
-            ck.require(src_it in ("self._active_evs", "self._simulator.get_active_evs()") and not g.ifs, "C05.R5", f, g.iter,
-                       ok="one SessionInfo per active EV, unfiltered", bad=f"sessions are built from {src_it}{' with a filter' if g.ifs else ''}, not from all active EVs",
-                       sink="session:source")
         for p, attr in SESSION_SYN.items():
             a = b.get(p)
             ok = a is not None and isinstance(a, ast.Attribute) and a.attr == attr and dotted(a.value) == itv
             ck.require(ok, "C05.R5", f, a if a is not None else c, ok=f"{p} <- ev.{attr}",
                        bad=f"SessionInfo parameter {p} is bound to `{src(a) if a is not None else 'nothing'}`; it must be the EV's {attr}", sink=f"session:{p}")
         a = b.get("current_time")
-        ok = a is not None and canon(fl.expand(a, n)) in ("self.current_time", "self._simulator._iteration")
+        ok = a is not None and canon(a) in ("self.current_time", "self._simulator._iteration")
         ck.require(ok, "C05.R5", f, a if a is not None else c, ok="current_time <- the simulator's current period",
                    bad="SessionInfo.current_time is not bound to the interface's current_time", sink="session:current_time")
         for extra in ("min_rates", "max_rates"):
